@@ -77,13 +77,17 @@ class Fut:
     def add_done_callback(self, cb):
         self.cb = cb
 
-    def run(self):
+    def run(self, pool_semantics=False):
+        """returns False when the work item is lost (see Ctl.pool_semantics)"""
         try:
             self._res = self.fn(*self.args)
         except BaseException as ex:   # what a ThreadPoolExecutor work item does
             if isinstance(ex, (Violation, HarnessError)) or type(ex).__module__.startswith("symx"):
                 raise
+            if pool_semantics and not isinstance(ex, Exception):
+                return False
             self._exc = ex
+        return True
 
     def result(self):
         if self._exc is not None:
@@ -94,8 +98,11 @@ class Fut:
 class Ctl:
     """controlled executor + queue"""
 
-    def __init__(self, e, log, tag=""):
+    def __init__(self, e, log, tag="", pool_semantics=False):
         self.e, self.log, self.pending, self.npick, self.tag = e, log, [], 0, tag
+        # multiprocessing.pool semantics (dask.threaded.get(pool=ThreadPool(..)) / multiprocessing.get): a worker only reports
+        # `Exception`s; a BaseException escaping the submitted callable kills the worker and the job never completes
+        self.pool_semantics = pool_semantics
 
     def submit(self, fn, *args):
         f = Fut(fn, args)
@@ -111,13 +118,15 @@ class Ctl:
                 pass
 
             def get(self, *a, **k):
-                if not ctl.pending:
-                    raise Violation("scheduler hangs: blocks in queue.get() with no batch pending")
-                i = ctl.e.choice(f"pick{ctl.tag}{ctl.npick}", len(ctl.pending))
-                ctl.npick += 1
-                f = ctl.pending.pop(i)
-                f.run()
-                return f
+                while True:
+                    if not ctl.pending:
+                        raise Violation("scheduler hangs: blocks in queue.get() with no batch pending")
+                    i = ctl.e.choice(f"pick{ctl.tag}{ctl.npick}", len(ctl.pending))
+                    ctl.npick += 1
+                    f = ctl.pending.pop(i)
+                    if f.run(ctl.pool_semantics):
+                        return f
+                    ctl.log.append(("lost", None))
 
         return Q
 
@@ -272,8 +281,8 @@ def logging_loads(log):
     return loads
 
 
-def run_scheduler(e, dsk, keys, nw, cs, log, callbacks=None, pack=None, rerun=None, cache=None, use_loads=True, tag=""):
-    ctl = Ctl(e, log, tag)
+def run_scheduler(e, dsk, keys, nw, cs, log, callbacks=None, pack=None, rerun=None, cache=None, use_loads=True, tag="", pool_semantics=False):
+    ctl = Ctl(e, log, tag, pool_semantics)
     kw = {}
     if pack is not None:
         kw["pack_exception"] = pack
